@@ -3,18 +3,20 @@
 # scratch worktree (suite passes with the change, demo fails with it and passes without), run every check against
 # them (quick tier) and keep them under /verif/seeded/<id>-<A|B>/ with a meta.json.
 set -u
+SRC_PREFIX="${SRC_PREFIX:-/tmp/mut-}"
+SUFFIX="${SUFFIX:-}"
 for id in "$@"; do
   for V in A B; do
-    SRC=/tmp/mut-$id/seeded/$V
+    SRC=$SRC_PREFIX$id/seeded/$V
     [ -f "$SRC/patch.diff" ] || { echo "$id-$V: no patch"; continue; }
-    DST=/verif/seeded/$id-$V
+    DST=/verif/seeded/$id-$V$SUFFIX
     mkdir -p "$DST"
     cp "$SRC/patch.diff" "$SRC/demo.rs" "$SRC/NOTES.md" "$DST/" 2>/dev/null
-    conf=$(/verif/tools/confirm_seeded.sh /tmp/mut-$id $V 2>&1)
+    conf=$(/verif/tools/confirm_seeded.sh $SRC_PREFIX$id $V 2>&1)
     echo "$conf" > "$DST/confirm.log"
     res=$(/verif/tools/try_seeded.sh "$DST/patch.diff" 2>&1)
     echo "$res" > "$DST/checks.log"
-    python3 - "$id" "$V" "$DST" <<'PY'
+    python3 - "$id" "$V$SUFFIX" "$DST" <<'PY'
 import sys,json,re
 pid,V,dst=sys.argv[1:4]
 conf=open(dst+'/confirm.log').read(); res=open(dst+'/checks.log').read()
@@ -30,7 +32,7 @@ meta={"id":pid+"-"+V,"breaks_property":pid,
    "failing_tests_with_change":sorted(set(failing)),
    "original_suite_passes_with_change": bool(withc) and all(f.startswith('tests::seeded_demo') for f in failing) and (int(withc.group(2))>=532),
    "demo_passes_without_change": bool(clean) and clean.group(3)=='0',
-   "demo_fails_with_change": any('seeded_demo_'+V.lower() in f for f in failing)},
+   "demo_fails_with_change": any('seeded_demo_'+V[0].lower() in f for f in failing)},
  "what_was_run":["tools/confirm_seeded.sh /tmp/mut-%s %s  (cargo test --offline --lib in the scratch worktree, clean and with the change)"%(pid,V),
                  "tools/try_seeded.sh seeded/%s-%s/patch.diff  (git -C /repo apply; every ./check <Cxx> quick; git -C /repo checkout -- .)"%(pid,V)],
  "detected_by":[{"check":c,"classes":d.strip()} for c,d in detected],
